@@ -54,6 +54,9 @@ func parseTopics(s string) []string {
 	if s == "-" || s == "" {
 		return nil
 	}
+	if s == "=" {
+		return []string{} // no topics, but not nil
+	}
 	var out []string
 	for _, p := range strings.Split(s, ",") {
 		out = append(out, string(unhx(p)))
